@@ -209,6 +209,7 @@ Record Jh (h : hub) (g : ghost) : Prop := {
   j_shape : forall p, In p (h_bus h) -> pub_shape p;
   j_asj : forall p b r x i s, In p (h_bus h) -> p_subj p = SubjBackendRoom b r -> p_msg p = ASessionJoined x i ->
             get_sess h x = Some s -> s_room s = None \/ s_room s = Some (b, r);
+  j_asj_id : forall p x i, In p (h_bus h) -> p_msg p = ASessionJoined x i -> x <= h_nextsid h;
   j_fresh_view : forall sid, h_nextsid h < sid -> g_view g sid = None;
   j_fresh_bind : forall c sid, g_bind g c = Some sid -> sid <= h_nextsid h;
   j_live : forall sid s, get_sess h sid = Some s -> sid <= h_nextsid h;
@@ -359,6 +360,7 @@ Proof.
     + intros p b r x i s' Hp Hsu Hm Hs. rewrite (sm_bus _ _ E) in Hp.
       destruct (same_get _ _ _ _ E Hs) as (s & Hs0 & Hc & _). apply vcore_eq in Hc as (_ & _ & Hr & _).
       rewrite Hr. eapply j_asj; eauto.
+    + intros p x i Hp Hm. rewrite (sm_bus _ _ E) in Hp. pose proof (sm_nextsid _ _ E). pose proof (j_asj_id _ _ H p x i Hp Hm). lia.
     + intros sid Hs. pose proof (sm_nextsid _ _ E). apply H. lia.
     + intros c sid Hs. pose proof (sm_nextsid _ _ E). pose proof (j_fresh_bind _ _ H c sid Hs). lia.
     + intros sid s' Hs. destruct (same_get _ _ _ _ E Hs) as (s & Hs0 & _). pose proof (sm_nextsid _ _ E).
@@ -642,9 +644,10 @@ Proof. reflexivity. Qed.
 Lemma Jh_publish h g subj m : Jh h g -> pub_shape (mkpub subj m (h_clock h)) ->
   (forall b r x i s, subj = SubjBackendRoom b r -> m = ASessionJoined x i -> get_sess h x = Some s ->
                      s_room s = None \/ s_room s = Some (b, r)) ->
+  (forall x i, m = ASessionJoined x i -> x <= h_nextsid h) ->
   Jh (publish h subj m) g.
 Proof.
-  intros H Hsh Ha. constructor.
+  intros H Hsh Ha Hid. constructor.
   - exact (j_keys _ _ H).
   - exact (j_room0 _ _ H).
   - intros p Hp. rewrite bus_publish in Hp. rewrite clock_publish. apply in_app_iff in Hp as [Hp|[<-|[]]].
@@ -654,6 +657,9 @@ Proof.
   - intros p b r x i s Hp Hsu Hm Hs. rewrite bus_publish in Hp. apply in_app_iff in Hp as [Hp|[<-|[]]].
     + eapply (j_asj _ _ H); eauto.
     + cbn in Hsu, Hm. eapply Ha; eauto.
+  - intros p x i Hp Hm. rewrite bus_publish in Hp. apply in_app_iff in Hp as [Hp|[<-|[]]].
+    + eapply (j_asj_id _ _ H); eauto.
+    + cbn in Hm. rewrite clock_publish || idtac. now apply (Hid x i).
   - exact (j_fresh_view _ _ H).
   - exact (j_fresh_bind _ _ H).
   - exact (j_live _ _ H).
@@ -679,7 +685,7 @@ Lemma Jg_publish_neutral xr xs h g subj m : neutral_msg m = true -> pub_shape (m
   Jg xr xs h g -> Jg xr xs (publish h subj m) g.
 Proof.
   intros Hn Hsh [H V]. split.
-  - apply Jh_publish; auto. intros b r x i s _ ->. discriminate.
+  - apply Jh_publish; auto; [intros b r x i s _ ->|intros x i ->]; discriminate.
   - rewrite bus_publish. intros sid s Hs Hv Hx. apply view_ok_app_none; [|now apply V].
     intros k M _. now apply pub_op_neutral.
 Qed.
@@ -691,6 +697,7 @@ Proof.
   intros H Hs Hb Hc Hn Hcn Hr. constructor; unfold get_sess; rewrite ?Hs, ?Hb, ?Hcn; try apply H.
   - exact Hr.
   - intros p Hp. pose proof (j_times _ _ H p Hp). lia.
+  - intros p x i Hp Hm. pose proof (j_asj_id _ _ H p x i Hp Hm). lia.
   - intros sid Hsid. apply H. lia.
   - intros c sid Hb'. pose proof (j_fresh_bind _ _ H c sid Hb'). lia.
   - intros sid s Hg. pose proof (j_live _ _ H sid s Hg). lia.
@@ -716,6 +723,7 @@ Proof.
   - intros p b r x i t Hin Hsu Hm Ht. rewrite get_put in Ht. destruct (N.eqb_spec x sid) as [->|].
     + injection Ht as <-. eapply Ha; eauto.
     + eapply (j_asj _ _ H); eauto.
+  - exact (j_asj_id _ _ H).
   - exact (j_fresh_view _ _ H).
   - exact (j_fresh_bind _ _ H).
   - intros x t Ht. rewrite get_put in Ht. destruct (N.eqb_spec x sid) as [->|]; eapply (j_live _ _ H); eauto.
@@ -810,7 +818,7 @@ Proof.
     intros k' r' Hr'. destruct (room_of h k') as [r0|] eqn:Hr0; [eapply (j_room0 _ _ H); eauto|]. now apply Hex2 in Hr'. }
   assert (Hg2 : forall x, get_sess h2 x = get_sess h x) by (intros x; unfold get_sess; now rewrite Hs2).
   split.
-  - apply Jh_publish; [exact H2|exact I|]. intros b r0 x i s _ Hm'. discriminate.
+  - apply Jh_publish; [exact H2|exact I| |]; [intros b r0 x i s _ Hm'|intros x i Hm']; discriminate.
   - rewrite bus_publish, Hb2, Hc2. intros y s Hs Hv Hy. change (get_sess h2 y = Some s) in Hs. rewrite Hg2 in Hs.
     specialize (V y s Hs Hv Hy). unfold view_ok in *. destruct (s_room s) as [k'|] eqn:Hk'; [|exact V].
     destruct V as [V|(M & V0 & HM & Hrep & Hseen & Haft)]; [now left|].
@@ -927,6 +935,7 @@ Proof.
     + rewrite P3, P4. apply H.
     + rewrite P3. apply H.
     + intros p b r x i t Hp Hsu Hmsg Ht. rewrite P3 in Hp. apply Hg' in Ht as [_ Ht]. eapply (j_asj _ _ H); eauto.
+    + rewrite P3, P5. apply H.
     + rewrite P5. apply H.
     + rewrite P5. apply H.
     + intros x t Ht. apply Hg' in Ht as [_ Ht]. rewrite P5. eapply (j_live _ _ H); eauto.
@@ -1176,6 +1185,9 @@ Qed.
 
 (* ------------------------------------------------------------------ the bus only grows, and not by "session joined" notices *)
 Definition not_asj (p : pub) : Prop := forall x i, p_msg p <> ASessionJoined x i.
+Definition not_asj_for (sid : N) (p : pub) : Prop := forall i, p_msg p <> ASessionJoined sid i.
+Lemma not_asj_weaken sid p : not_asj p -> not_asj_for sid p.
+Proof. intros H i. apply H. Qed.
 Definition grows (h h' : hub) : Prop := exists l, h_bus h' = h_bus h ++ l /\ forall p, In p l -> not_asj p.
 
 Lemma grows_eq h h' : h_bus h' = h_bus h -> grows h h'.
@@ -1334,6 +1346,7 @@ Proof.
     + intros p b r x i t Hp Hsu Hmsg Ht. rewrite Pb in Hp. rewrite Hg in Ht. destruct (N.eqb_spec x sid) as [->|].
       * injection Ht as <-. now left.
       * eapply (j_asj _ _ H); eauto.
+    + intros p x i Hp Hmsg. rewrite Pb in Hp. rewrite Pn. pose proof (j_asj_id _ _ H p x i Hp Hmsg). lia.
     + intros x Hx. rewrite Pn in Hx. apply H. lia.
     + intros c' x. rewrite Pn. destruct (N.eqb_spec c' c) as [->|].
       * intros Hx. injection Hx as <-. apply N.le_refl.
@@ -1430,6 +1443,7 @@ Proof.
     + intros p b r x i t Hp Hsu Hmsg Ht. rewrite Pb in Hp. rewrite Hg in Ht. destruct (N.eqb_spec x n) as [->|].
       * injection Ht as <-. cbn. eapply (j_asj _ _ H); eauto.
       * eapply (j_asj _ _ H); eauto.
+    + rewrite Pb, Pn. apply H.
     + intros x Hx. rewrite Pn in Hx. rewrite Gv. destruct (N.eqb_spec x n) as [->|]; [|now apply H].
       pose proof (j_live _ _ H n s Hs). lia.
     + intros c0 x. rewrite Pn, Gb. destruct (N.eqb_spec c0 c) as [->|]; [|apply (j_fresh_bind _ _ H)].
@@ -1569,18 +1583,18 @@ Proof.
     destruct (pair_eqb_spec k k'); [congruence|]. cbn [andb opt_list]. rewrite app_nil_r. apply Haft.
 Qed.
 
-Lemma bus_ops_filtered sid k tj M bus : (forall p, In p bus -> p_time p < tj /\ not_asj p) -> bus_ops sid k tj M bus = [].
+Lemma bus_ops_filtered sid k tj M bus : (forall p, In p bus -> p_time p < tj /\ not_asj_for sid p) -> bus_ops sid k tj M bus = [].
 Proof.
   induction bus as [|p r IH]; intros Hall; [reflexivity|]. rewrite bus_ops_cons, IH by (intros q Hq; apply Hall; now right).
   destruct (Hall p (or_introl eq_refl)) as [Ht Hn]. apply N.ltb_lt in Ht. rewrite app_nil_r.
   unfold pub_op. destruct (p_subj p); destruct (p_msg p) eqn:Hm; try reflexivity; rewrite ?Ht, ?andb_false_r; try reflexivity.
-  exfalso. eapply Hn; eauto.
+  destruct (N.eqb_spec sid0 sid) as [->|]; [exfalso; eapply Hn; eauto|now rewrite andb_false_r].
 Qed.
 
 (* the new member itself: its own join notice, then the members of that moment *)
 Lemma view_ok_joiner xr mo v bus0 sid s k M' t1 t2 u i :
   s_room s = Some k -> mo k = Some M' -> nmem sid M' = true -> replay (s_pending s) v = Some (snd k, []) -> s_seen s = [] ->
-  (forall p, In p bus0 -> p_time p < s_join s /\ not_asj p) -> s_join s <= t1 ->
+  (forall p, In p bus0 -> p_time p < s_join s /\ not_asj_for sid p) -> s_join s <= t1 ->
   view_ok xr mo v ((bus0 ++ [mkpub (SubjRoom (fst k) (snd k)) (ARoomEvent (SJoin [(sid, u)])) t1]) ++
                    [mkpub (SubjBackendRoom (fst k) (snd k)) (ASessionJoined sid i) t2]) sid s.
 Proof.
@@ -1631,7 +1645,7 @@ Qed.
 
 Lemma Jg_join_room xs h g c sid k rs perms su s0 :
   WF h -> Jg none2 xs h g -> ~ xs sid -> get_sess h sid = Some s0 -> is_virtual (s_kind s0) = false ->
-  s_room s0 <> Some k -> fst k = s_backend s0 -> snd k <> 0 -> (forall p, In p (h_bus h) -> not_asj p) ->
+  s_room s0 <> Some k -> fst k = s_backend s0 -> snd k <> 0 -> (forall p, In p (h_bus h) -> not_asj_for sid p) ->
   Jg none2 xs (fst (join_room h c sid k rs perms su)) (gouts g (snd (join_room h c sid k rs perms su))).
 Proof.
   intros W HJ Hxs Hs0 Hv0 Hnk Hbk Hk0 Hna. unfold join_room.
@@ -1737,7 +1751,7 @@ Proof.
       destruct (pair_eqb k' k); reflexivity. }
     assert (J9 : Jg none2 (or_sid xs sid) h9 g7).
     { split.
-      - apply Jh_publish; [exact H7|exact I|]. intros b rr x i t _ Hm. discriminate.
+      - apply Jh_publish; [exact H7|exact I| |]; [intros b rr x i t _ Hm|intros x i Hm]; discriminate.
       - apply (Jv_member_added none2 (or_sid xs sid) h1 h9 g7 k sid uid (r_members r) (h_clock h7)).
         + apply (Jh_gview h1 g g7 sid (proj1 J1)); auto.
         + apply (Jv_gview_exempt none2 (or_sid xs sid) h1 g g7 (h_bus h1) sid (proj2 J1)); [now right|exact G7v].
@@ -1760,9 +1774,10 @@ Proof.
     destruct (same_get' _ _ _ _ E10 Hs9) as (s10 & Hs10 & Hc10 & (_ & Hp10 & _)).
     apply vcore_eq in Hc10 as (C1 & C2 & C3 & C4 & C5 & C6).
     split.
-    - apply Jh_publish; [exact (proj1 J10)|exact I|].
-      intros b rr x i t Hsu Hm Ht. injection Hsu as <- <-. injection Hm as <- _. right.
-      assert (t = s10) by congruence. subst t. rewrite C3, F3. destruct k; reflexivity.
+    - apply Jh_publish; [exact (proj1 J10)|exact I| |].
+      + intros b rr x i t Hsu Hm Ht. injection Hsu as <- <-. injection Hm as <- _. right.
+        assert (t = s10) by congruence. subst t. rewrite C3, F3. destruct k; reflexivity.
+      + intros x i Hm. injection Hm as <- _. eapply (j_live _ _ (proj1 J10)); eauto.
     - rewrite bus_publish. intros x t Ht Hvt Hx. change (get_sess h10 x = Some t) in Ht.
       destruct (N.eqb_spec x sid) as [->|Hne].
       + assert (t = s10) by congruence. subst t.
@@ -1776,7 +1791,7 @@ Proof.
         * congruence.
         * intros p Hp. split.
           -- rewrite C6, F6. apply (j_times _ _ (proj1 J1) p Hp).
-          -- destruct G1 as (l & Hl & Hnl). rewrite Hl in Hp. apply in_app_iff in Hp as [Hp|Hp]; auto.
+          -- destruct G1 as (l & Hl & Hnl). rewrite Hl in Hp. apply in_app_iff in Hp as [Hp|Hp]; [auto|apply not_asj_weaken; auto].
         * rewrite C6, F6, Hc7. lia.
       + apply view_ok_app_none.
         * intros k' M _. rewrite pub_op_asj. destruct (N.eqb_spec sid x); [congruence|]. now rewrite andb_false_r.
@@ -1948,7 +1963,7 @@ Lemma gouts_irr_cons g o outs : out_irr o = true -> geq (gouts g outs) (gouts g 
 Proof. intros Ho. rewrite gouts_cons. apply gouts_geq. now apply gout_irr. Qed.
 
 Lemma Jg_do_join h g c sid s rn rs rep : WF h -> J h g -> get_sess h sid = Some s -> is_virtual (s_kind s) = false ->
-  (forall p, In p (h_bus h) -> not_asj p) ->
+  (forall p, In p (h_bus h) -> not_asj_for sid p) ->
   J (fst (do_join h c sid s rn rs rep)) (gouts g (snd (do_join h c sid s rn rs rep))).
 Proof.
   intros W HJ Hs Hv Hna. unfold do_join, J in *.
@@ -1984,8 +1999,8 @@ Proof.
   destruct (get_sess h1 sid) as [s1|] eqn:Hs1.
   2:{ cbn [fst snd]. apply Jg_irr; [cbn; exact I1|exact J1]. }
   destruct (S1 sid s1 Hs1) as (s' & Hs' & K1 & K2 & K3). assert (s' = s) by congruence. subst s'.
-  assert (Hna1 : forall p, In p (h_bus h1) -> not_asj p).
-  { intros p Hp. destruct G1 as (l & Hl & Hnl). rewrite Hl in Hp. apply in_app_iff in Hp as [Hp|Hp]; auto. }
+  assert (Hna1 : forall p, In p (h_bus h1) -> not_asj_for sid p).
+  { intros p Hp. destruct G1 as (l & Hl & Hnl). rewrite Hl in Hp. apply in_app_iff in Hp as [Hp|Hp]; [auto|apply not_asj_weaken; auto]. }
   assert (Hgeq : forall X, geq (gouts g X) (gouts g (ToBackend (s_backend s, 1, 0, rn, (if N.eqb rs 0 then 2000000 + sid else rsv), 1) :: outs1 ++ X))).
   { intros X. rewrite gouts_cons. cbn [gout]. rewrite gouts_app. apply gouts_geq. now apply gouts_irr. }
   destruct rep as [perms su|code].
@@ -2105,10 +2120,9 @@ Lemma WJ_same xr xs h h' g : same h h' -> WFg xr none1 h' -> WJ xr xs h g -> WJ 
 Proof. intros E W' [W HJ]. split; [exact W'|eapply Jg_same; eauto]. Qed.
 
 Lemma J_do_internal h g c sid s q : WF h -> J h g -> get_sess h sid = Some s -> is_internal (s_kind s) = true ->
-  (forall p, In p (h_bus h) -> not_asj p) ->
   J (fst (do_internal h c sid s q)) (gouts g (snd (do_internal h c sid s q))).
 Proof.
-  unfold WF, J. intros W HJ Hs Hint Hna. unfold do_internal.
+  unfold WF, J. intros W HJ Hs Hint. unfold do_internal.
   assert (Hpub : forall hh sj m, WFg none2 none1 hh -> WFg none2 none1 (publish hh sj m)).
   { intros. eapply wf_equiv; [apply equiv_publish|assumption]. }
   destruct q as [v rn user flags incall|v rn flags incall|v rn|ic].
@@ -2148,7 +2162,10 @@ Proof.
         rewrite pget_pset. destruct (pair_eqb_spec k' k) as [->|]; [intros _; eapply (j_room0 _ _ H); eauto|apply (j_room0 _ _ H)].
       - rewrite A3, A4. apply H.
       - rewrite A3. apply H.
-      - intros p b rr x i t Hp _ Hm. rewrite A3 in Hp. exfalso. eapply (Hna p Hp); eauto.
+      - intros p b rr x i t Hp Hsu Hm Ht. rewrite A3 in Hp. rewrite Hg5 in Ht. destruct (N.eqb_spec x vs) as [->|].
+        + pose proof (j_asj_id _ _ H p vs i Hp Hm). lia.
+        + eapply (j_asj _ _ H); eauto.
+      - intros p x i Hp Hm. rewrite A3 in Hp. rewrite A5. pose proof (j_asj_id _ _ H p x i Hp Hm). cbn. lia.
       - intros x Hx. rewrite A5 in Hx. apply H. cbn in Hx. lia.
       - intros c0 x Hx. rewrite A5. pose proof (j_fresh_bind _ _ H c0 x Hx). cbn. lia.
       - intros x t Ht. rewrite A5. rewrite Hg5 in Ht. destruct (N.eqb_spec x vs) as [->|]; [cbn; lia|].
@@ -2162,7 +2179,7 @@ Proof.
       - intros x t c0 Ht. rewrite Hg5 in Ht. destruct (N.eqb_spec x vs) as [->|]; [injection Ht as <-; discriminate|eapply (j_bind _ _ H); eauto]. }
     set (h6 := publish h5 (SubjRoom (fst k) (snd k)) (ARoomEvent (SJoin [(vs, user)]))).
     assert (J6 : Jg none2 no1 h6 g).
-    { split; [apply Jh_publish; [exact H5|exact I|]; intros b rr x i t _ Hm; discriminate|].
+    { split; [apply Jh_publish; [exact H5|exact I| |]; [intros b rr x i t _ Hm|intros x i Hm]; discriminate|].
       apply (Jv_drop_virtual none2 no1 h6 g (h_bus h6) vs).
       - apply (Jv_member_added none2 (or_sid no1 vs) h h6 g k vs user (r_members r) (h_clock h5) (proj1 HJ)).
         + apply Jv_exempt, HJ.
@@ -2184,8 +2201,10 @@ Proof.
     set (h9 := publish h8 (SubjBackendRoom (fst k) (snd k)) (ASessionJoined vs false)).
     assert (WJ9 : WJ none2 no1 h9 g).
     { destruct WJ8 as [W8 [H8 V8]]. split; [now apply Hpub|]. split.
-      - apply Jh_publish; [exact H8|exact I|]. intros b rr x i t Hsu Hm Ht. injection Hsu as <- <-. injection Hm as <- _.
-        rewrite Hg8, Hg5, N.eqb_refl in Ht. injection Ht as <-. right. reflexivity.
+      - apply Jh_publish; [exact H8|exact I| |].
+        + intros b rr x i t Hsu Hm Ht. injection Hsu as <- <-. injection Hm as <- _.
+          rewrite Hg8, Hg5, N.eqb_refl in Ht. injection Ht as <-. right. reflexivity.
+        + intros x i Hm. injection Hm as <- _. apply (j_live _ _ H8 vs vsess). now rewrite Hg8, Hg5, N.eqb_refl.
       - unfold h9. rewrite bus_publish. intros x t Ht Hvt Hx. apply view_ok_app_none; [|now apply V8].
         intros k' M _. rewrite pub_op_asj. destruct (N.eqb_spec vs x) as [<-|]; [|now rewrite andb_false_r].
         change (get_sess h8 vs = Some t) in Ht. rewrite Hg8, Hg5, N.eqb_refl in Ht. injection Ht as <-. discriminate. }
@@ -2248,10 +2267,15 @@ Lemma nobody_on h g c cn : Jh h g -> aget (h_conns h) c = Some cn -> c_sess cn =
   forall x s, get_sess h x = Some s -> s_conn s <> Some c.
 Proof. intros H Hc Hn x s Hx Hxc. destruct (j_cs _ _ H x s c Hx Hxc) as (cn' & Hcn' & Hcs'). congruence. Qed.
 
-(* the requests that must not be processed while a "session joined" notice is still queued *)
-Definition needs_quiet (o : op) : bool := match o with OJoin _ _ _ _ | OInternal _ _ => true | _ => false end.
+(* a join request must not be processed while a "session joined" notice for the same session is still queued *)
+Definition join_guard (h : hub) (o : op) : Prop :=
+  match o with
+  | OJoin c _ _ _ => forall cn sid, aget (h_conns h) c = Some cn -> c_sess cn = Some sid ->
+                                    forall p, In p (h_bus h) -> not_asj_for sid p
+  | _ => True
+  end.
 
-Lemma J_step_gen h g o : WF h -> J h g -> (needs_quiet o = true -> forall p, In p (h_bus h) -> not_asj p) ->
+Lemma J_step_gen h g o : WF h -> J h g -> join_guard h o ->
   (forall pos, o = ODeliver pos -> h_bus h = []) -> J (fst (step h o)) (gouts g (snd (step h o))).
 Proof.
   intros W HJ Hquiet Hd. unfold J in *.
@@ -2266,7 +2290,7 @@ Proof.
     apply Jg_do_hello; [exact Hno|]. now apply Jg_set_conn.
   - (* join *)
     apply J_with_session; auto. intros cn sid s Hc Hcs Hs Hv.
-    pose proof (Jg_do_join h g c sid s rn rs rep W HJ Hs Hv (Hquiet eq_refl)) as J1.
+    pose proof (Jg_do_join h g c sid s rn rs rep W HJ Hs Hv (Hquiet cn sid Hc Hcs)) as J1.
     destruct (do_join h c sid s rn rs rep) as [h1 o1]. cbn [fst snd] in J1.
     destruct rep as [[p|] su|code]; try exact J1. destruct (get_sess h1 sid) as [s1|]; [|exact J1].
     match goal with |- context [if ?b then _ else _] => destruct b end; [|exact J1].
@@ -2331,7 +2355,7 @@ Proof.
 Qed.
 
 Lemma J_step h g o : WF h -> J h g -> h_bus h = [] -> J (fst (step h o)) (gouts g (snd (step h o))).
-Proof. intros W HJ Hb. apply J_step_gen; auto. intros _ p. rewrite Hb. intros []. Qed.
+Proof. intros W HJ Hb. apply J_step_gen; auto. destruct o; try exact I. intros cn sid _ _ p. rewrite Hb. intros []. Qed.
 
 (* ------------------------------------------------------------------ delivering the first queued publication *)
 Lemma Jh_pop h g p rest : h_bus h = p :: rest -> Jh h g -> Jh (set_bus h rest) g.
@@ -2340,6 +2364,7 @@ Proof.
   - intros q Hq. apply (j_times _ _ H). rewrite Hb. now right.
   - intros q Hq. apply (j_shape _ _ H). rewrite Hb. now right.
   - intros q b r x i s Hq. apply (j_asj _ _ H). rewrite Hb. now right.
+  - intros q x i Hq. apply (j_asj_id _ _ H). rewrite Hb. now right.
 Qed.
 
 Lemma Jg_pop_none xr xs h g p rest : h_bus h = p :: rest -> (forall sid k tj M, pub_op sid k tj M p = None) ->
@@ -2685,7 +2710,7 @@ Proof.
   { induction l as [|a l IH]; intros hh Hh; cbn [fold_left]; [exact Hh|]. apply IH. destruct (get_sess hh a) as [sa|]; [|exact Hh].
     destruct (is_virtual (s_kind sa) && negb (N.eqb (s_flags sa) 0)); [|exact Hh]. now apply Jg_publish_neutral. }
   apply Hfl. split.
-  - apply Jh_publish; [exact H0|exact I|]. intros b' r' x i' s _ Hm. discriminate.
+  - apply Jh_publish; [exact H0|exact I| |]; [intros b' r' x i' s _ Hm|intros x i' Hm]; discriminate.
   - unfold h1. rewrite bus_publish. cbn [h_bus set_bus h0 h_clock set_clock]. intros y s Hs Hv _.
     change (get_sess h y = Some s) in Hs. pose proof (V y s Hs Hv (fun F => F)) as Vy. rewrite Hb in Vy.
     change (mem_of (publish h0 (SubjSession sid) (ARoomEvent (SJoin entries)))) with (mem_of h).
@@ -3163,8 +3188,8 @@ Proof. vm_compute. repeat split; reflexivity. Qed.
 
 (* ------------------------------------------------------------------ explicit deliveries in publication order *)
 (* Histories with explicit deliveries (run), every one of them of the FIRST queued publication.  The
-   invariant survives every such history in which no join request and no request of an internal
-   client is processed while a "session joined" notice is still queued (observers_fifo_refuted: the
+   invariant survives every such history in which no session's join request is processed while a
+   "session joined" notice for that same session is still queued (observers_fifo_refuted: the
    exclusion is needed); the quiescent histories are the special case "nothing is queued". *)
 Definition vstep2 (st : hub * ghost) (o : op) : hub * ghost :=
   let '(h', outs) := step (fst st) o in (h', gouts (snd st) outs).
@@ -3173,13 +3198,11 @@ Definition vrun2 (st : hub * ghost) (ops : list op) : hub * ghost := fold_left v
 Fixpoint fifo_guarded (h : hub) (ops : list op) : Prop :=
   match ops with
   | [] => True
-  | o :: r => (forall pos, o = ODeliver pos -> pos = 0) /\
-              (needs_quiet o = true -> forall p, In p (h_bus h) -> not_asj p) /\
-              fifo_guarded (fst (step h o)) r
+  | o :: r => (forall pos, o = ODeliver pos -> pos = 0) /\ join_guard h o /\ fifo_guarded (fst (step h o)) r
   end.
 
-Lemma J_step_fifo h g o : WF h -> J h g -> (forall pos, o = ODeliver pos -> pos = 0) ->
-  (needs_quiet o = true -> forall p, In p (h_bus h) -> not_asj p) -> J (fst (step h o)) (gouts g (snd (step h o))).
+Lemma J_step_fifo h g o : WF h -> J h g -> (forall pos, o = ODeliver pos -> pos = 0) -> join_guard h o ->
+  J (fst (step h o)) (gouts g (snd (step h o))).
 Proof.
   intros W HJ Hp Hq. destruct o; try (apply J_step_gen; auto; intros pos' E; discriminate E).
   rewrite (Hp pos eq_refl). cbn [step]. now apply J_deliver.
@@ -3210,26 +3233,59 @@ Proof.
   split; [now apply J_observers|now apply J_observers_queued].
 Qed.
 
-(* the history of the existing refutation for ARBITRARY delivery orders in the order a FIFO bus produces: guarded *)
+(* the quiescent semantics without a bound on the number of deliveries: every request finds the bus empty *)
+Fixpoint fully_drained (h : hub) (ops : list op) : Prop :=
+  match ops with
+  | [] => True
+  | o :: r => match o with ODeliver pos => pos = 0 | _ => h_bus h = [] end /\ fully_drained (fst (step h o)) r
+  end.
+Lemma fully_drained_guarded ops : forall h, fully_drained h ops -> fifo_guarded h ops.
+Proof.
+  induction ops as [|o r IH]; intros h H; cbn [fully_drained fifo_guarded] in *; [exact I|]. destruct H as [H1 H2].
+  split; [|split; [|now apply IH]].
+  - intros pos ->. exact H1.
+  - destruct o; try exact I. intros cn sid _ _ p. rewrite H1. intros [].
+Qed.
+
+Corollary observers_converge_fully_drained limits gated ops :
+  fully_drained (init limits gated) ops ->
+  let st := vrun2 (init limits gated, g0) ops in
+  fst st = run (init limits gated) ops /\
+  (h_bus (fst st) = [] -> observers_converged (fst st) (snd st) /\ observers_converged_queued (fst st) (snd st)).
+Proof. intros H. apply observers_converge_fifo_guarded. now apply fully_drained_guarded. Qed.
+
+(* the history of the existing refutation for ARBITRARY delivery orders in the order a FIFO bus produces,
+   with more requests between the deliveries: guarded *)
 Definition fifo_ops : list op :=
   [OConnect 1 0; OConnect 2 0; OConnect 3 0; OHello 1 (HV1 0 1 false); OHello 2 (HV1 0 2 false); OHello 3 (HV1 0 3 false);
    OJoin 1 1 1 (RepOk None 0); ODeliver 0; ODeliver 0;
-   OJoin 2 1 2 (RepOk None 0); ODeliver 0; OMsg 1 RRoom 9; ODeliver 0; ODeliver 0; ODeliver 0;
-   OJoin 3 1 3 (RepOk None 0); ODeliver 0; ODeliver 0; ODeliver 0;
+   OJoin 2 1 2 (RepOk None 0); ODeliver 0; OMsg 1 RRoom 9; OJoin 3 1 3 (RepOk None 0); ODeliver 0; ODeliver 0; ODeliver 0;
+   ODeliver 0; ODeliver 0; ODeliver 0;
    OJoin 2 0 0 (RepOk None 0); OBye 3; ODeliver 0; ODeliver 0].
+Definition join_guardb (h : hub) (o : op) : bool :=
+  match o with
+  | OJoin c _ _ _ => match aget (h_conns h) c with
+                     | Some cn => match c_sess cn with
+                                  | Some sid => forallb (fun p => match p_msg p with ASessionJoined x _ => negb (N.eqb x sid) | _ => true end) (h_bus h)
+                                  | None => true end
+                     | None => true end
+  | _ => true
+  end.
 Fixpoint fifo_guardedb (h : hub) (ops : list op) : bool :=
   match ops with
   | [] => true
-  | o :: r => (match o with ODeliver pos => N.eqb pos 0 | _ => true end) &&
-              (negb (needs_quiet o) || forallb (fun p => match p_msg p with ASessionJoined _ _ => false | _ => true end) (h_bus h)) &&
-              fifo_guardedb (fst (step h o)) r
+  | o :: r => (match o with ODeliver pos => N.eqb pos 0 | _ => true end) && join_guardb h o && fifo_guardedb (fst (step h o)) r
   end.
+Lemma join_guardb_ok h o : join_guardb h o = true -> join_guard h o.
+Proof.
+  destruct o; try (intros _; exact I). cbn [join_guardb join_guard]. intros H cn sid Hc Hs p Hp i Hm. rewrite Hc, Hs in H.
+  rewrite forallb_forall in H. specialize (H p Hp). rewrite Hm, N.eqb_refl in H. discriminate.
+Qed.
 Lemma fifo_guardedb_ok ops : forall h, fifo_guardedb h ops = true -> fifo_guarded h ops.
 Proof.
   induction ops as [|o r IH]; intros h H; cbn [fifo_guarded fifo_guardedb] in *; [exact I|].
-  apply andb_true_iff in H as [H H3]. apply andb_true_iff in H as [H1 H2]. split; [|split; [|now apply IH]].
-  - intros pos ->. now apply N.eqb_eq.
-  - intros Hn p Hp x i Hm. rewrite Hn in H2. cbn in H2. rewrite forallb_forall in H2. specialize (H2 p Hp). rewrite Hm in H2. discriminate.
+  apply andb_true_iff in H as [H H3]. apply andb_true_iff in H as [H1 H2]. split; [|split; [now apply join_guardb_ok|now apply IH]].
+  intros pos ->. now apply N.eqb_eq.
 Qed.
 Example fifo_ops_guarded : fifo_guarded (init [0; 0] false) fifo_ops /\ h_bus (run (init [0; 0] false) fifo_ops) = [] /\
   views_of (vrun2 (init [0; 0] false, g0) fifo_ops) = [(1, Some (1, [1]), Some (0, 1)); (2, None, None)].
@@ -3245,7 +3301,7 @@ Proof. vm_compute. reflexivity. Qed.
 
 (* Summary
    Jg / J                                   the invariant (hub-level part Jh, per-session part view_ok)
-   J_step_gen, J_step                       every request preserves it (joins / internal requests: no "session joined" notice queued)
+   J_step_gen, J_step                       every request preserves it (a join: no "session joined" notice for the same session queued)
    J_deliver                                every delivery of the first queued publication preserves it
    J_drain, J_qstep, J_vrun                 quiescent steps and histories
    observers_converge_quiescent             C04, observer side, quiescent semantics (hypothesis: drained)
